@@ -64,6 +64,13 @@ def gen_config(rnd, S, opts=None):
                 ip.append("%s:%d" % (ft["id"], rnd.choice([2, 3, -2])))
         if ip:
             base_extra["init_positions"] = ",".join(ip)
+    if opts.get("wipeout") and S["futures"] and "future" in accounts:
+        # a leveraged long position held from the start (about 70% of the capital as margin) in the contract that collapses: total value <= 0 at a settlement
+        f0 = S["futures"][0]
+        p0 = f0["bars"][S["warm"] - 1][2]
+        lots = max(1, int(0.7 * accounts["future"] / (p0 * f0["mult"] * f0["info"]["margin_rate"] * base_extra["margin_multiplier"])))
+        base_extra["init_positions"] = "%s:%d" % (f0["id"], lots)
+        base_extra["forced_liquidation"] = True
     return dict(accounts=accounts, sim=sim, accounts_mod=acc_mod, cost=cost, base_extra=base_extra)
 
 
